@@ -3,7 +3,7 @@
 (* events (BPM changes, stops, delays, warps) placed on a small beat grid -    *)
 (* hence every coincidence of kinds on one beat, nested / overlapping /        *)
 (* touching warps, events at beat 0 - on the smooth sub-domain (times are       *)
-(* integers in U = 1/8192 s).  The state is the timing data under construction; *)
+(* integers in U = 1/286720 s).  The state is the timing data under construction; *)
 (* each AddX action adds one event keeping the lists sorted.                    *)
 EXTENDS Timing, Json, TLC
 CONSTANTS MaxEv, Grid, FirstU, BpmUs, PauseU, WarpLens, DoEmit
@@ -29,7 +29,7 @@ MaxPos == LET S == Grid \cup {td.warps[w].b + td.warps[w].len : w \in DOMAIN td.
 EvBeats == Grid \cup {td.warps[w].b + td.warps[w].len : w \in DOMAIN td.warps}
 (* probe positions: every event beat and warp end, the ticks next to them, half-tick and *)
 (* quarter-tick neighbours (off the grid), a beat before zero and one after everything   *)
-Probes == UNION {{p - TICK, p - 8, p, p + 4, p + 8, p + TICK} : p \in EvBeats} \cup {-768, -TICK, MaxPos + 768}
+Probes == UNION {{p - TICK, p - TICK \div 2, p, p + TICK \div 4, p + TICK \div 2, p + TICK} : p \in EvBeats} \cup {-48 * TICK, -TICK, MaxPos + 48 * TICK}
 TickProbes == {p \in Probes : p % TICK = 0}
 NextProbe(b) == LET later == {x \in Probes : x > b} IN CHOOSE x \in later : \A y \in later : x <= y
 MainTags == {T_WARP, T_BPM, T_STOP, T_STOP_END}
